@@ -43,11 +43,35 @@ func scenarioRoute() int {
 		n = ev.Pick(2500, 40000)
 	}
 	var cases []*routeCase
+	var dialIns []*wire.TCPConn
+	hopDialIns := 0
 	relayed, dropped := 0, 0
 	for i := 0; i < n; i++ {
 		if h := w.Health(); h != "" {
 			run.Violation("proxy died during the run (belongs to C08; the run cannot continue)", map[string]any{"health": h})
 			break
+		}
+		if i%25 == 0 {
+			// a next hop is also a client: it connects to a listener from an ephemeral port and sends
+			// a request whose Via names the address it listens on. The connection stays open. What is
+			// routed to that address later still has to arrive at its listener.
+			h := w.Hops[g.R.Intn(len(w.Hops))]
+			sv := w.Svcs[g.R.Intn(len(w.Svcs))]
+			if cn, err := w.Net.Dial(fmt.Sprintf("nh/dial-in%d", i), h.IP+":0", fmt.Sprintf("%s:%d", sv.IP, sv.TCP)); err == nil {
+				id := fmt.Sprintf("di%d", i)
+				via := fmt.Sprintf("%s:%d", []string{h.IP, h.Name}[g.R.Intn(2)], wire.NextHopPortB)
+				raw := fmt.Sprintf("OPTIONS sip:sentinel@sentinel.verif.test SIP/2.0\r\nVia: SIP/2.0/TCP %s;branch=z9hG4bKvf%s\r\nRoute: <sip:%s:%d;lr>\r\nMax-Forwards: 70\r\nFrom: <sip:hop@%s>;tag=h\r\nTo: <sip:sentinel@sentinel.verif.test>\r\nCall-ID: %s@vf\r\nCSeq: 1 OPTIONS\r\nX-Vf: %s\r\nContent-Length: 0\r\n\r\n",
+					via, id, w.Plan.Sentinel(), wire.SentinelUDP, h.IP, id, id)
+				cn.Send([]byte(raw), id)
+				w.Net.WaitCase(id, func(o []*wire.Obs) bool { return len(o) >= 1 }, w.BarrierWait)
+				w.Net.Forget(id)
+				dialIns = append(dialIns, cn)
+				if len(dialIns) > 6 {
+					dialIns[0].Close(false)
+					dialIns = dialIns[1:]
+				}
+				hopDialIns++
+			}
 		}
 		c := genRouteCase(w, g, i)
 		c.model = w.RouteModel(c.path.Svc, c.path.Proto, c.rreq)
@@ -97,6 +121,7 @@ func scenarioRoute() int {
 			run.Violation("output arrived after the barrier of its case", map[string]any{"case": c.id, "cell": c.cell, "judged_with": c.nobs, "final": k})
 		}
 	}
+	run.Observe("connections_opened_by_next_hops_towards_the_proxy", hopDialIns)
 	run.Observe("cases_relayed", relayed)
 	run.Observe("cases_dropped", dropped)
 	run.Observe("barriers", w.Barriers)
